@@ -234,11 +234,30 @@ Lemma loose_TSne p : wf (TSneValidParams_perplexity p) -> wf (TSneValidParams_ap
 Proof. intros H1 H2. unfold spec_TSneParams. refl_tac. Qed.
 
 Lemma strict_FastIca p : wf (FastIcaValidParams_tol p) ->
-  g_strict (spec_FastIcaParams fm p) = true <-> 0 < val (FastIcaValidParams_tol p).
-Proof. intros H. unfold spec_FastIcaParams. refl_tac. Qed.
+  g_strict (spec_FastIcaParams fm p) = true <->
+  0 < val (FastIcaValidParams_tol p) /\ logcosh_ok (FastIcaValidParams_gfunc p) = true.
+Proof.
+  intros H. unfold spec_FastIcaParams; cbn [g_strict].
+  destruct (logcosh_ok (FastIcaValidParams_gfunc p)); rewrite ?andb_true_r, ?andb_false_r;
+    [| split; [discriminate | intros [_ X]; discriminate X]].
+  toR. destruct (Rlt_bool_spec 0 (val (FastIcaValidParams_tol p))); split; intros; try tauto; try discriminate.
+  exfalso; lra.
+Qed.
 Lemma loose_FastIca p : wf (FastIcaValidParams_tol p) ->
-  g_loose (spec_FastIcaParams fm p) = true <-> 0 <= val (FastIcaValidParams_tol p).
-Proof. intros H. unfold spec_FastIcaParams. refl_tac. Qed.
+  g_loose (spec_FastIcaParams fm p) = true <->
+  0 <= val (FastIcaValidParams_tol p) /\ logcosh_ok (FastIcaValidParams_gfunc p) = true.
+Proof.
+  intros H. unfold spec_FastIcaParams; cbn [g_loose].
+  destruct (logcosh_ok (FastIcaValidParams_gfunc p)); rewrite ?andb_true_r, ?andb_false_r;
+    [| split; [discriminate | intros [_ X]; discriminate X]].
+  toR. destruct (Rle_bool_spec 0 (val (FastIcaValidParams_tol p))); split; intros; try tauto; try discriminate.
+  exfalso; lra.
+Qed.
+Lemma known_FastIca p :
+  g_known (spec_FastIcaParams fm p) = 0%N <-> logcosh_ok (FastIcaValidParams_gfunc p) = true.
+Proof.
+  unfold spec_FastIcaParams; cbn [g_known]. destruct (logcosh_ok _); split; intros; try reflexivity; discriminate.
+Qed.
 
 Lemma strict_Hierarchical p :
   match ValidHierarchicalCluster_stopping p with Criterion_Distance x => wf x | _ => True end ->
@@ -491,6 +510,32 @@ Proof.
   match goal with |- 1 < val ?t => replace t with s_2 by reflexivity end. rewrite val_s_2; lra.
 Qed.
 
+(** FastICA: the alpha of `GFunc::Logcosh` is an f64 *)
+Lemma logcosh_ok_R g : match g with GFunc_Logcosh a => wf 53 1024 a | _ => True end ->
+  logcosh_ok g = true <-> match g with GFunc_Logcosh a => 1 <= val a <= 2 | _ => True end.
+Proof.
+  destruct g as [a| |]; cbn; try tauto. intros H.
+  assert (W1 : wf 53 1024 one64) by (split; reflexivity).
+  assert (W2 : wf 53 1024 two64) by (split; reflexivity).
+  rewrite (fle_R 53 1024 one64 a W1 H), (fle_R 53 1024 a two64 H W2).
+  replace (val one64) with 1 by (unfold val, one64, SF2R, F2R; simpl; lra).
+  replace (val two64) with 2 by (unfold val, two64, SF2R, F2R; simpl; lra).
+  destruct (Rle_bool_spec 1 (val a)), (Rle_bool_spec (val a) 2); cbn; split; intros; try lra; try discriminate; reflexivity.
+Qed.
+
+Definition d_10 : spec_float := S754_finite false 5629499534213120 (-49).     (* 10.0 *)
+Lemma val_d_10 : val d_10 = 10.
+Proof. unfold val, d_10, SF2R, F2R; simpl; lra. Qed.
+(* F-C04-1: Logcosh(10) - the value of the crate's own test test_logcosh_alpha_err - passes the guard *)
+Lemma refuted_FC041 : exists p,
+  (exists a, FastIcaValidParams_gfunc p = GFunc_Logcosh a /\ wf 53 1024 a /\ 2 < val a)
+  /\ check_ref_FastIcaParams fmt64 p = None.
+Proof.
+  exists {| FastIcaValidParams_ncomponents := None; FastIcaValidParams_gfunc := GFunc_Logcosh d_10;
+            FastIcaValidParams_max_iter := 200; FastIcaValidParams_tol := d_1em4; FastIcaValidParams_random_state := None |}.
+  split; [| reflexivity]. exists d_10. split; [reflexivity|]. split; [split; reflexivity|]. rewrite val_d_10; lra.
+Qed.
+
 (** * Non-vacuity: the documented default parameter set of every builder (binary64; f32 for the count
       vectoriser's frequencies) consists of finite numbers of the format, lies in the strict documented
       range and outside every known-finding region, and is accepted by the translated guard.
@@ -523,7 +568,7 @@ Example default_parameter_sets_are_in_range_and_accepted :
      ("PlsParams", [("max_iter", VN 500); ("tolerance", VF d_1em6)]);
      ("PlsXParams", [("max_iter", VN 500); ("tolerance", VF d_1em6)]);
      ("TSneParams", [("approx_threshold", VF d_half); ("perplexity", VF d_5); ("max_iter", VN 2000)]);
-     ("FastIcaParams", [("max_iter", VN 200); ("tol", VF d_1em4)]);
+     ("FastIcaParams", [("gfunc", VCtor "Logcosh" [VF one64]); ("max_iter", VN 200); ("tol", VF d_1em4)]);
      ("DiffusionMapParams", [("steps", VN 1); ("embedding_size", VN 2)]);
      ("RandomProjectionParams", [("params", VCtor "Epsilon" [VF d_01])]);
      ("HierarchicalCluster", [("stopping", VCtor "NumClusters" [VN 2])])] = true
